@@ -1,7 +1,7 @@
 import LyModel.XPath.Eval
 import LyModel.XPath.FloatNum
 import LyModel.XPath.Set
-import LyModel.XPath.Render
+import LyModel.XPath.Canon
 /-!
 driver ops of component `xpath` (C08).  The driver is stateless, so every evaluation request carries the document:
 
@@ -18,12 +18,14 @@ driver ops of component `xpath` (C08).  The driver is stateless, so every evalua
 * `xpparse <expr-hex>` -> `ok <n> (<kind>:<pos>:<len>:<repeat>)*` | `err Lex` | `err Parse`   (`reparse = 1`; repeat = `-` or the
   digits of `exp->repeat[i]`)
 * `xpast <expr-hex>`   -> `ok <hex of the prefix form of the parsed tree>` | `err Lex` | `err Parse`        (model only)
-* `xprender <ast-hex>` -> `ok <hex of the canonical text>`                                               (model only)
+* `xprender <ast-hex>` -> `ok <hex of the canonical text>` | `err NotWf` (no canonical text: `Canon.wf`)        (model only)
 -/
 namespace LyModel.XPath.Drv
 open LyModel LyModel.XPath
 
 def bstr (b : Bytes) : String := String.ofList (b.map fun x => Char.ofNat x.toNat)
+/-- inverse of `bstr` -/
+def unbstr (s : String) : Bytes := s.toList.map fun c => UInt8.ofNat c.toNat
 
 /-- dump: one line per element `<depth> <module> <name> <kind> <value-hex> <basetype>` in document order -/
 def parseDump (b : Bytes) : Option Doc := do
@@ -95,9 +97,9 @@ partial def pStep : List String → Option (Step × List String)
   | "S" :: ax :: r => do
     let a ← axisOf ax
     let (t, r1) ← (match r with
-      | "n" :: p :: name :: t => some (Test.name (if p == "_" then none else some p.toUTF8.toList) name.toUTF8.toList, t)
+      | "n" :: p :: name :: t => some (Test.name (if p == "_" then none else some (unbstr p)) (unbstr name), t)
       | "a" :: t => some (Test.any, t)
-      | "m" :: p :: t => some (Test.anyIn p.toUTF8.toList, t)
+      | "m" :: p :: t => some (Test.anyIn (unbstr p), t)
       | "o" :: t => some (Test.node, t)
       | "t" :: t => some (Test.text, t)
       | "c" :: t => some (Test.comment, t)
@@ -301,7 +303,7 @@ def handle (op : String) (args : List String) : String :=
   | "xpast", [h] => xpast h
   | "xprender", [h] =>
     match (Hex.dec h).bind parseAst with
-    | some e => "ok " ++ Hex.enc (Render.render e)
+    | some e => if Canon.wf e then "ok " ++ Hex.enc (Render.render e) else "err NotWf"
     | none => "err BadAst"
   | _, _ => "err BadOp"
 
